@@ -421,6 +421,7 @@ func registerSync(e *Engine) {
 			return nil, true
 		}
 		o := poolItems(st, args[0].(Ptr), true)
+		o = poolItems(st, args[0].(Ptr), true)
 		o.Buf = append(o.Buf, iv)
 		return nil, true
 	}
